@@ -27,7 +27,7 @@ X86Init(P, args, nblocks) ==
                        ELSE UndefV]
   IN [pc |-> P.labels["asm_main"], regs |-> regs0,
       stk |-> (0 :> RetV), heap |-> <<>>, flags |-> NoFlagsV, nblocks |-> nblocks,
-      out |-> <<>>, status |-> "run", tag |-> "", why |-> "", result |-> UndefV, steps |-> 0, hi |-> 0]
+      out |-> <<>>, status |-> "run", tag |-> "", why |-> "", result |-> UndefV, steps |-> 0, hi |-> 0, strict |-> TRUE]
 
 \* ---------- memory: resolve a memory operand to <<"heap", key>> / <<"stk", off>> / <<"bad", tag, why>>
 X86Addr(s, m) ==
@@ -133,7 +133,7 @@ X86Step(P, s) ==
       op == i.op
   IN
   IF op \in {"label", "mark"} THEN Next1(s)
-  ELSE IF X86Unencodable(i) # "" THEN Fail(s, "encode", "unencodable instruction: " \o X86Unencodable(i))
+  ELSE IF s.strict /\ X86Unencodable(i) # "" THEN Fail(s, "encode", "unencodable instruction: " \o X86Unencodable(i))
   ELSE IF op \in {"mov", "lea"} THEN
      LET v == X86Read(s, i.a[2])
      IN IF IsBadOrEx(v) THEN BadToFail(s, v) ELSE Next1(X86Write(s, i.a[1], v))
